@@ -539,7 +539,7 @@ pub fn run() {
             let _ = std::fs::create_dir_all(&dir);
             let mut invs = invocations(&dir);
             if quick {
-                let keep: Vec<Inv> = invs.iter().enumerate().filter(|(i, v)| v.expect.is_none() || i % 3 == 0 || v.name.contains("verify") || v.name.starts_with("--")).map(|(_, v)| v.clone()).collect();
+                let keep: Vec<Inv> = invs.iter().enumerate().filter(|(i, v)| v.expect.is_none() || i % 3 == 0 || v.name.contains("verify") || v.name.starts_with("--") || v.name.starts_with("board")).map(|(_, v)| v.clone()).collect();
                 invs = keep;
             }
             nproc = invs.len() as u64;
